@@ -3,7 +3,9 @@
 cd /verif
 for d in seeded/C*-m*; do
   id=$(basename $d); p=${id%-m*}; k=${id#*-m}
-  if git -C /repo apply --check /verif/$d/patch.diff 2>/dev/null; then
+  if [ -f $d/NOTE ]; then
+    echo "$id: $(cat $d/NOTE)"
+  elif git -C /repo apply --check /verif/$d/patch.diff 2>/dev/null; then
     extra=""; [ -f $d/extra_checks ] && extra=$(cat $d/extra_checks)
     tools/eval_mutant.py $p $k $extra 2>&1 | cut -c1-220
   else
